@@ -26,6 +26,16 @@ CUSTOM_PACKETS = ['serverbound.login:PluginResponsePacket', 'clientbound.play.fa
                   'clientbound.play.player_list_item_packet:PlayerListItemPacket', 'clientbound.play.map_packet:MapPacket']
 
 
+CORE_PACKETS = ['serverbound.handshake:HandShakePacket', 'serverbound.status:RequestPacket', 'clientbound.status:ResponsePacket',
+                'serverbound.status:PingPacket', 'clientbound.status:PingResponsePacket', 'serverbound.login:LoginStartPacket',
+                'clientbound.login:LoginSuccessPacket', 'clientbound.login:DisconnectPacket', 'clientbound.login:SetCompressionPacket',
+                'clientbound.login:EncryptionRequestPacket', 'serverbound.login:EncryptionResponsePacket', 'clientbound.play:KeepAlivePacket',
+                'serverbound.play:KeepAlivePacket', 'clientbound.play.join_game_and_respawn_packets:JoinGamePacket',
+                'clientbound.play:ChatMessagePacket', 'serverbound.play:ChatPacket',
+                'clientbound.play.player_position_and_look_packet:PlayerPositionAndLookPacket', 'serverbound.play:PositionAndLookPacket',
+                'serverbound.play:TeleportConfirmPacket', 'clientbound.play:DisconnectPacket']
+
+
 def class_list(t):
     cl = set()
     for p in t['per_version']:
@@ -160,6 +170,7 @@ def gen_tables(t, outdir):
     L.append('Definition defs_l : list (Z * ladder (option defn)) := [\n' + ';\n'.join(ent) + '\n].')
     L.append('Definition custom_classes : list Z := %s.' % zl(custom))
     L.append('Definition custom_modelled : list Z := %s.' % zl([cidx[c] for c in classes if c in CUSTOM_PACKETS]))
+    L.append('Definition core_class : list (Z * Z) := [%s].' % '; '.join('(%d, %d)' % (i, cidx[c]) for i, c in enumerate(CORE_PACKETS) if c in cidx))
     L.append('Definition members (tbl vi : Z) : list Z := match ladder_get (assoc members_l tbl []) vi None with Some l => l | None => [] end.')
     L.append('Definition members_defined (tbl vi : Z) : bool := match ladder_get (assoc members_l tbl []) vi None with Some _ => true | None => false end.')
     L.append('Definition id_of (c vi : Z) : option Z := ladder_get (assoc ids_l c []) vi None.')
